@@ -69,3 +69,49 @@ Theorem C09_ref_sequence_in_sequence_flattens : forall c, o_maxexpr (rO c) = 0%N
           (reval c (S (S f)) H R inv (ESeq n (a ++ b ++ d)) sc g m).
 Proof. exact ref_sequence_in_sequence_flattens. Qed.
 Print Assumptions C09_ref_sequence_in_sequence_flattens.
+
+(* ---- a whole pass of the optimizer, modelled (Model/OptMerge.v; the check runs the model against the real
+   ast.Optimize on generated choices and compares the alternatives left, syntactically) ----
+   For every flat choice of alternatives (one-rune literals, classes with even-length range lists - what the class
+   reader produces -, the any matcher, longer or empty literals), whatever expressions the builder emits for the
+   alternatives as written (L) and for the alternatives the pass leaves (L'): under Ref the two choices give the same
+   success/failure, value, end position and state and the same scope, from every position of every input, with every
+   history. *)
+From PV Require Import Proofs.Determinacy Model.OptMerge Proofs.OptMergeProofs.
+
+Theorem C09_merge_pass_preserves_choice : forall (c : rdata),
+  o_maxexpr (rO c) = 0%N ->
+  (forall id x y, ctx_eq x y -> out_eq (ce_act (rE c) id x) (ce_act (rE c) id y)) ->
+  (forall id x y, ctx_eq x y -> out_eq (ce_pred (rE c) id x) (ce_pred (rE c) id y)) ->
+  (forall id x y, ctx_eq x y -> out_eq (ce_state (rE c) id x) (ce_state (rE c) id y)) ->
+  forall l L L',
+    Forall wf_alt l -> Forall2 (denotes c) l L -> Forall2 (denotes c) (optimize_choice l) L' ->
+    forall f H R inv n n' sc g m,
+      res_eq (reval c (S (S f)) H R inv (EAlt n L) sc g m) (reval c (S (S f)) H R inv (EAlt n' L') sc g m).
+Proof. intros c Hb Ha Hp Hs. exact (merge_pass_preserves_choice c Hb Ha Hp Hs). Qed.
+Print Assumptions C09_merge_pass_preserves_choice.
+
+(* when the pass leaves one alternative the optimizer puts it in the place of the choice *)
+Theorem C09_single_alternative_replaces_choice : forall (c : rdata),
+  o_maxexpr (rO c) = 0%N ->
+  forall a e ok, denotes c a e -> ok_of c a = Some ok ->
+  forall f H R inv n sc g m,
+    res_eq (reval c (S (S f)) H R inv (EAlt n [e]) sc g m) (reval c (S f) H R inv e sc g m).
+Proof. intros c Hb. exact (single_alternative c Hb). Qed.
+Print Assumptions C09_single_alternative_replaces_choice.
+
+(* the class algebra the pass relies on, for every class and rune *)
+Theorem C09_class_union : forall u c0 r0 k0 c1 r1 k1 ic cur, Nat.even (length r0) = true ->
+  class_decide u (c0 ++ c1) (r0 ++ r1) (k0 ++ k1) ic false cur =
+  class_decide u c0 r0 k0 ic false cur || class_decide u c1 r1 k1 ic false cur.
+Proof. exact class_decide_app. Qed.
+Print Assumptions C09_class_union.
+
+(* non-vacuity: "a" / [b0-9] / "c"i / [x] / [x] is merged to [ba0-9] / "c"i / [x] (two runs, then cleanup) *)
+Example C09_merge_example :
+  optimize_choice [MLit [97%Z] false; MCls [98%Z] [48%Z; 57%Z] [] false false; MLit [99%Z] true;
+                   MCls [120%Z] [] [] false false; MCls [120%Z] [] [] false false]
+  = [MCls [98%Z; 97%Z] [48%Z; 57%Z] [] false false; MLit [99%Z] true; MCls [120%Z] [] [] false false]
+  /\ Forall wf_alt [MLit [97%Z] false; MCls [98%Z] [48%Z; 57%Z] [] false false; MLit [99%Z] true;
+                    MCls [120%Z] [] [] false false; MCls [120%Z] [] [] false false].
+Proof. split; [vm_compute; reflexivity | repeat constructor]. Qed.
